@@ -243,6 +243,13 @@ class DurationOps(Sub):
         req(sig(d + x) == sig(r_add), "d + dt differs from dt.add() with the same arguments")
         if has_var(a):
             expect_value("dt + d", r1, z, mw, x.isoformat())
+        # the same Duration spelled with the constructor's milliseconds argument (the sub-second part split into ms + us)
+        us_ = a.get("microseconds", 0)
+        d_ms = pendulum.duration(**dict({k: v for k, v in a.items() if k != "microseconds"}, milliseconds=us_ // 1000, microseconds=us_ % 1000))
+        req(d_ms == d and (d_ms.years, d_ms.months) == (d.years, d.months), "harness: milliseconds spelling is another duration")
+        req(sig(x + d_ms) == sig(r_add) and sig(d_ms + x) == sig(r_add), "dt + d differs from dt.add() when d was built with milliseconds=", got=(x + d_ms).isoformat(),
+            add=r_add.isoformat(), amt=a)
+        req(sig(x - d_ms) == sig(x - d), "dt - d depends on whether d was built with milliseconds= or microseconds=", ms=(x - d_ms).isoformat(), us=(x - d).isoformat(), amt=a)
         lab = "denormalised"
         if case["canonical"]:
             lab = "canonical"
